@@ -20,6 +20,7 @@ type Config struct {
 	Delays    int
 	Race      bool
 	Solver    string
+	XSolver   string
 	TimeoutMs int
 	MaxPaths  int
 	Workers   int
@@ -55,9 +56,12 @@ type nondetRec struct {
 }
 
 type Engine struct {
-	P      *Program
-	tt     *TermTable
-	solver *Solver
+	P       *Program
+	tt      *TermTable
+	solver2 *Solver
+	xdis    int
+	xchk    int
+	solver  *Solver
 	cfg    Config
 	id     int
 	fnInfo map[*ssa.Function]*fnInfo
@@ -428,13 +432,24 @@ func (r *Run) assert(c *Term, id string) {
 		r.violation(id, "assertion can be false", r.nondetModel())
 	} else {
 		saved := r.model
-		switch r.check(r.e.tt.BNot(c), true) {
+		res := r.check(r.e.tt.BNot(c), true)
+		switch res {
 		case Sat:
 			r.violation(id, "assertion can be false", r.nondetModel())
 		case Unknown:
 			r.cuts = append(r.cuts, "UNKNOWN on assertion "+id)
 		}
 		r.model = saved
+		if r.e.solver2 != nil && res != Unknown {
+			// cross-check the verdict of every assertion query on a second solver
+			res2, _ := r.e.solver2.Check(r.pc, r.e.tt.BNot(c), nil, false)
+			r.e.xchk++
+			if res2 != Unknown && res2 != res {
+				r.e.xdis++
+				r.internalErr = "solver disagreement on assertion " + id + ": " + r.e.solver.name + "=" + res.String() + " " + r.e.solver2.name + "=" + res2.String()
+				panic(abortRun{"INTERNAL:" + r.internalErr})
+			}
+		}
 	}
 	// continue on the side where it holds
 	r.assume(c)
@@ -551,6 +566,7 @@ type Summary struct {
 	QUnknown    int
 	SolverErr   int
 	SolverSec   float64
+	XChecked    int
 	WallSec     float64
 	SchedPts    int
 	Switches    int
@@ -589,6 +605,13 @@ func Explore(P *Program, cfg Config, harness string) *Summary {
 			}
 			defer solver.Close()
 			e := &Engine{P: P, tt: tt, solver: solver, cfg: cfg, id: w, fnInfo: map[*ssa.Function]*fnInfo{}}
+			if cfg.XSolver != "" {
+				s2, err := NewSolver(cfg.XSolver, tt, cfg.TimeoutMs)
+				if err == nil {
+					e.solver2 = s2
+					defer s2.Close()
+				}
+			}
 			for {
 				mu.Lock()
 				for len(stack) == 0 && busy > 0 {
@@ -710,6 +733,10 @@ func Explore(P *Program, cfg Config, harness string) *Summary {
 			sum.QUnknown += solver.nUnknown
 			sum.SolverErr += solver.nErrors
 			sum.SolverSec += solver.solverTime.Seconds()
+			sum.XChecked += e.xchk
+			if e.solver2 != nil {
+				sum.SolverSec += e.solver2.solverTime.Seconds()
+			}
 			mu.Unlock()
 		}(w)
 	}
